@@ -17,6 +17,9 @@ pub enum Mode {
     Types,
     /// C02: no panic
     Panics,
+    /// C13: after any accepted sequence of assignments every reachable cell holds a value
+    /// of its declared type (monitor on, only cell-content violations are judged)
+    Cells,
 }
 
 pub struct Soundness {
@@ -42,6 +45,7 @@ fn load_known_into_thread() {
 
 pub static C01: Soundness = Soundness { mode: Mode::Types, id: "C01" };
 pub static C02: Soundness = Soundness { mode: Mode::Panics, id: "C02" };
+pub static C13_CELLS: Soundness = Soundness { mode: Mode::Cells, id: "C13" };
 
 impl Soundness {
     /// judges one execution; Some(verdict) = stop here
@@ -63,6 +67,12 @@ impl Soundness {
                 }
                 _ => None,
             },
+            Mode::Cells => {
+                let cellish = |sig: &str| sig == "C01:cell-content" || sig.ends_with(":cell");
+                run.log.violations.iter().find(|v| cellish(&v.sig)).map(|v| {
+                    fail(format!("C13:cell-typing:{}", v.sig.trim_start_matches("C01:")), format!("{what}: {}", v.msg))
+                })
+            }
             Mode::Types => {
                 for ((kind, shape), n) in &run.log.hits {
                     stats.label_n(&format!("observed {kind} : {shape}"), *n);
@@ -87,11 +97,16 @@ impl Soundness {
                     stats.nontrivial(key);
                 }
             }
+            Mode::Cells => {
+                if run.log.hits.keys().any(|(_, shape)| *shape == "mut") {
+                    stats.nontrivial(key);
+                }
+            }
         }
     }
 
     fn monitor(&self) -> bool {
-        self.mode == Mode::Types
+        self.mode != Mode::Panics
     }
 
     /// a function program of the matrix: accept -> call with every combination of operand values
@@ -246,6 +261,7 @@ pub fn run(session: &Session, prop: &'static Soundness) -> i32 {
     }
 
     let (rule, assumptions): (&str, &[&str]) = match prop.mode {
+        Mode::Cells => ("", &[]),
         Mode::Types => (
             "the operator x operand-type matrix: every unary/postfix/statement template applied to a parameter of each of 60 catalogue types (exhaustive), every infix/assignment operator and two-operand template on all pairs of catalogue types (exhaustive); each function the checker accepts is called through the host API and in-language with every combination of the catalogue's values for its parameter types (every union member, empty arrays, exhausted iterators, cells); the documentation corpus is executed too. Oracle: the verif monitor reports every instruction result, argument binding, function return, the final result and every reachable cell with the static type the checker computed; the harness's own membership test (tag and contents, recursively) must hold. Non-trivial = an execution with at least one observation whose static type is a union, array, tuple, struct, function or mut; distinct by call.",
             &["instructions inside the placeholder-typed helper closures of @ ? ~ are not judged (their static types are not claims about user values)"],
@@ -256,4 +272,34 @@ pub fn run(session: &Session, prop: &'static Soundness) -> i32 {
         ),
     };
     session.finish(rule, false, assumptions)
+}
+
+/// C13's share of the matrix: every template applied to parameters whose type mentions `mut`,
+/// called with the values of every catalogue type the host API admits (subsumption)
+pub fn run_cells(session: &Session) {
+    let prop: &'static Soundness = &C13_CELLS;
+    let _ = KNOWN_GLOBAL.set(session.known.iter().map(|k| k.sig.clone()).collect());
+    let mut cases = vec![];
+    for (x, op) in CATALOGUE.iter().enumerate() {
+        if !op.ty.contains("mut") {
+            continue;
+        }
+        for t in 0..UNARY.len() {
+            cases.push(json!({"kind": "unary", "x": x, "t": t}));
+        }
+        for y in 0..CATALOGUE.len() {
+            for o in 0..INFIX.len() {
+                if INFIX[o].contains('=') && !matches!(INFIX[o], "==" | "!=" | "<=" | ">=") {
+                    cases.push(json!({"kind": "infix", "x": x, "y": y, "op": o}));
+                }
+            }
+            for t in 0..BINARY.len() {
+                if BINARY[t].contains(" = ") || BINARY[t].contains("+=") {
+                    cases.push(json!({"kind": "binary", "x": x, "y": y, "t": t}));
+                }
+            }
+        }
+    }
+    session.set_extra("cell_typing_matrix_cases", json!(cases.len()));
+    session.run_enum(prop, cases);
 }
